@@ -135,6 +135,29 @@ pub fn run(ctx: &Ctx, st: &mut Stats) {
             st.sample(|| json!(c));
         }
     }
+    // (e) the edge of the quantifier: GMT offsets EXACTLY six hours from longitude/15
+    {
+        let mut rb = Rng::new(ctx.seed, 105, ctx.shard);
+        let mut idx = 0u64;
+        for k in -24..=24 {
+            let lon = k as f64 * 7.5;
+            for sg in [-6.0, 6.0] {
+                let g = lon / 15.0 + sg;
+                if !(-12.0..=12.0).contains(&g) {
+                    continue;
+                }
+                idx += 1;
+                if !ctx.mine(idx) {
+                    continue;
+                }
+                for _ in 0..6 {
+                    let c = Case { site: Site::new(gen::any_lat(&mut rb), lon, gen::any_elev(&mut rb), g), date: d2s(hostile_date(&mut rb)), method: rb.int(0, 8) as usize, policy: "None".into() };
+                    check(ctx, st, &c);
+                    st.count("gmt_exactly_6h_from_longitude_cases");
+                }
+            }
+        }
+    }
     // (d) RA-wrap seeking (see C13): GMT offsets on a fine grid around the one where the Sun's right ascension at
     //     local midnight crosses 360 -> 0, on the March dates where that happens
     let nseek = ctx.quota(160, 8_000);
